@@ -23,4 +23,10 @@ func init() {
 		Explain:     "GF arithmetic enumerated completely; RS code parameters and error patterns sampled, short codes enumerated over all error position sets",
 		Assumptions: []string{"nothing is asserted for more than floor(r/2) errors", "reference arithmetic: internal/gfref (no tables)"},
 	}
+	configs["C07"] = cfg{
+		Level: "exploration", QuickShards: 8, ThorShards: 16, QuickTO: 5 * time.Minute, ThorTO: 30 * time.Minute,
+		Rule:        "Differential against internal/qrref (symbol built from ISO 18004: capacity formula, table 9 block structure, bit stream, LFSR RS over own GF(256), interleave, function patterns, BCH format/version words, zig-zag placement, mask formulae). sym_all_configs: all 1280 (version, level, mask) configurations with a text payload (mode rotates; thorough: all four modes x lengths {1, mid, cap, cap-1}) forced by hints, module-by-module comparison; sym_random: rapid configurations incl. ECI and FNC1 headers near capacity; raw_streams: arbitrary final codeword streams through MatrixUtil_buildMatrix for all (version, mask); tables_all_versions: totals, alignment centres, dimension, all 160 block structures, version words, decoder mask predicates for every dimension; format_words_all: all 32 BCH format words. Non-trivial = every compared symbol/table (distinct by configuration + payload hash).",
+		Explain:     "configuration space (1280) and all table entries enumerated completely; payload space sampled",
+		Assumptions: []string{"the forced-mask symbol is compared (the penalty-based automatic mask choice is not part of the property)", "reference tables typed from ISO 18004 table 9; capacity anchors 7089/4296/2953/1817 etc. are re-derived at start"},
+	}
 }
